@@ -61,6 +61,7 @@ class FnTarget:
         self.closures = {}     # closure ordinal -> contract text for the k-th closure expression of the body
         self.params_to_let = False  # R8: destructuring closure parameters become a `let` at the head of the closure body
         self.map_to_match = set()   # R13: headers of closures whose `RECV.map(|p| body)` is written out as a match
+        self.let_chains = False  # R16: `if let P = e && c { body }` (no else) written as nested ifs
         self.tfe = {}          # R15: closure header -> (loop spec text, ghost iterator name) for `RECV.try_for_each(|p| body)` written out as a loop
         self.omit = False
         self.canary = True
@@ -88,6 +89,7 @@ class Block:
         self.head_all = None   # head text for every fn of the block (a fn's own `head` is put after it)
         self.trait_decl_only = False  # R12 (`//@ decl-only`): a trait is emitted as declarations only (default bodies dropped, specs kept)
         self.params_to_let_all = False  # R8 for every fn of the block
+        self.let_chains_all = False  # R16 for every fn of the block
         self.impl_to_generic = False  # R11: `x: &impl Trait` parameters become a named type parameter
         self.as_spec = None    # R10: emit the selected fn a second time as `pub closed spec fn <as_spec>` (its spec twin)
 
@@ -362,15 +364,18 @@ class Assembler:
                             # R15 (opt-in): `RECV.try_for_each(|p| body)`, addressed by the closure's parameter list `/|p|/`, is
                             # written out by the definition of Iterator::try_for_each for a Result ("applies a fallible function
                             # to each item, stopping at the first error and returning that error"):
-                            #   { let mut __rbv_tfe_r_N = Ok(()); let __rbv_tfe_v_N = RECV; let __rbv_tfe_f_N = |p| body;
+                            #   { let mut __rbv_tfe_r_N = Ok(()); let __rbv_tfe_v_N = RECV; let __rbv_tfe_f_N = rbv_tfe_typed_iter(&__rbv_tfe_v_N, |p| body);
                             #     for __rbv_tfe_x_N in ITER: __rbv_tfe_v_N  <the text of this field: invariant .. ensures ..>
                             #     { match __rbv_tfe_f_N(__rbv_tfe_x_N) { Ok(()) => {} Err(e) => { __rbv_tfe_r_N = Err(e); break; } } }
                             #     __rbv_tfe_r_N }
                             # (N = ordinal of the rewrite in the fn; ITER = `iter=NAME`, default __rbv_tfe_it_N).  A `.into_iter()` that
                             # ends RECV is dropped (`for` applies it) and `let ghost __rbv_tfe_s_N = __rbv_tfe_v_N@;` names the items.
+                            # `rbv_tfe_typed_iter` / `rbv_tfe_typed_vec` (units/verus/rbv_tfe.vui, included by the unit) are the identity on the
+                            # closure; they only give rustc the parameter type that try_for_each's signature gave it.
                             # The closure keeps its own tokens (`closure` / `closure-params-to-let` apply to it as usual).  Verus has no
                             # specification for try_for_each and refuses an assume_specification for a provided trait method.
-                            # In the field text `$r` `$f` `$s` `$v` stand for the generated names of result / closure / item sequence / receiver.
+                            # In the field text `$r` `$f` `$s` `$v` stand for the generated names of result / closure / item sequence / receiver;
+                            # a line `@before` / `@after` starts ghost text put right before the loop / between the loop and the result.
                             opt_ = d.startswith('try-for-each-to-loop? ')
                             rest_ = d.split(None, 1)[1].strip()
                             e_ = rest_.rindex('/') if '/' in rest_ else -1
@@ -389,6 +394,15 @@ class Assembler:
                             cur_field = ('tfe', key_, it_)
                             if opt_:
                                 blk.cur.optional.add(('tfe', key_))
+                        elif d == 'let-chains-to-nested-if':
+                            # R16 (opt-in): an `if` WITHOUT else whose condition is a let-chain, `if let P = e && c && let Q = f { body }`,
+                            # is written as nested ifs, `if let P = e { if c { if let Q = f { body } } }` -- the definition of `&&` in a
+                            # condition (left to right, later conjuncts see the earlier bindings; an `if` without else has the value ()).
+                            # Refused (anchor lost) when an `else` follows.  Verus' front end rejects let-chains.
+                            if blk.cur is None:
+                                blk.let_chains_all = True
+                            else:
+                                blk.cur.let_chains = True
                         elif d == 'no-canary':
                             blk.cur.canary = False
                         elif d.startswith('as-spec '):
@@ -720,6 +734,35 @@ class Assembler:
                     if canary and (tgt is None or tgt.canary):
                         edits.append((st[j].end, st[j].end, '\nproof { assert(false); } // RBVERIF_CANARY\n'))
                         self.canaries += 1
+                elif (t.kind == 'ident' and t.text == 'if' and ((tgt and tgt.let_chains) or blk.let_chains_all)):
+                    # R16: let-chain `if` without else -> nested ifs (the tokens in between are scanned as usual afterwards)
+                    j = k + 1
+                    depth = 0
+                    splits, has_let = [], False
+                    while j < b:
+                        tt = st[j]
+                        if tt.kind == 'punct' and tt.text in '([':
+                            depth += 1
+                        elif tt.kind == 'punct' and tt.text in ')]':
+                            depth -= 1
+                        elif tt.kind == 'punct' and tt.text == '{' and depth == 0:
+                            break
+                        elif depth == 0 and tt.kind == 'ident' and tt.text == 'let':
+                            has_let = True
+                        elif (depth == 0 and tt.kind == 'punct' and tt.text == '&' and st[j + 1].text == '&' and st[j + 1].start == tt.end
+                              and (st[j - 1].kind in ('ident', 'num', 'str', 'char') or st[j - 1].text in (')', ']'))
+                              and st[j - 1].text not in ('return', 'in', 'if', 'let', 'mut')):
+                            splits.append(j)
+                            j += 1
+                        j += 1
+                    if has_let and splits and j < b:
+                        jc = match_close(st, j)
+                        if jc + 1 < len(st) and st[jc + 1].text == 'else':
+                            raise AnchorLost('R16: the let-chain `if` at %s:%d has an else branch' % (blk.relpath, src.line_of(t.start)))
+                        for p_ in splits:
+                            edits.append((st[p_].start, st[p_ + 1].end, '{ if '))
+                        edits.append((st[jc].end, st[jc].end, ' }' * len(splits)))
+                        self.rewrites.append('R16 %s:%d let-chain `if` (no else, %d conjuncts) written as nested ifs' % (blk.relpath, src.line_of(t.start), len(splits) + 1))
                 elif (t.text == '|' and t.kind == 'punct' and st[k - 1].text in ('(', ',', '=', 'move', 'return')
                       and not (st[k - 1].text == '=' and st[k - 2].text in ('=', '!', '<', '>', '|'))):
                     # a closure expression `|params| body` / `|| body` in argument or initializer position.
@@ -845,18 +888,28 @@ class Assembler:
                         into_iter = [x.text for x in st[k - 7:k - 3]] == ['.', 'into_iter', '(', ')'] and k - 7 > r0
                         edits.append((st[r0].start, st[r0].start, '{ let mut %s = Ok(()); let %s = ' % (nr, nv)))
                         if into_iter:
-                            edits.append((st[k - 7].start, st[k - 1].end, '; let ghost %s = %s@; let %s = ' % (ns, nv, nf)))
+                            edits.append((st[k - 7].start, st[k - 1].end, '; let ghost %s = %s@; let %s = rbv_tfe_typed_vec(&%s, ' % (ns, nv, nf, nv)))
                         else:
-                            edits.append((st[k - 3].start, st[k - 1].end, '; let %s = ' % nf))
+                            edits.append((st[k - 3].start, st[k - 1].end, '; let %s = rbv_tfe_typed_iter(&%s, ' % (nf, nv)))
                         for ph_, nm_ in (('$r', nr), ('$v', nv), ('$f', nf), ('$s', ns)):
                             ftext = ftext.replace(ph_, nm_)
+                        # optional sections of the field text: a line `@before` / `@after` starts ghost text that is put right
+                        # before the generated loop / between its closing brace and the result expression
+                        sect_ = {'spec': [], 'before': [], 'after': []}
+                        cur_ = 'spec'
+                        for ln_ in ftext.split('\n'):
+                            if ln_.strip() in ('@before', '@after'):
+                                cur_ = ln_.strip()[1:]
+                            else:
+                                sect_[cur_].append(ln_)
+                        ftext, fbefore, fafter = ('\n'.join(sect_[x_]) for x_ in ('spec', 'before', 'after'))
                         cny = ''
                         if canary and tgt.canary:
                             cny = '\nproof { assert(false); } // RBVERIF_CANARY\n'
                             self.canaries += 1
                         tfe_close = (st[last].end, st[kc].end,
-                                     ';\nfor %s in %s: %s\n%s\n{%s match %s(%s) { Ok(()) => {} Err(__rbv_tfe_e) => { %s = Err(__rbv_tfe_e); break; } } }\n%s }'
-                                     % (nx, itname, nv, ftext, cny, nf, nx, nr, nr))
+                                     ');\n%s\nfor %s in %s: %s\n%s\n{%s match %s(%s) { Ok(()) => {} Err(__rbv_tfe_e) => { %s = Err(__rbv_tfe_e); break; } } }\n%s\n%s }'
+                                     % (fbefore, nx, itname, nv, ftext, cny, nf, nx, nr, fafter, nr))
                         self.rewrites.append('R15 %s:%d closure #%d of fn %s: `RECV.try_for_each(%s body)` written out as a loop that stops at the first Err (definition of Iterator::try_for_each)%s'
                                              % (blk.relpath, src.line_of(t.start), closure_no, tgt.name, chdr, '; trailing .into_iter() of RECV dropped' if into_iter else ''))
                     # R8 (opt-in, `//@ closure-params-to-let`): a closure parameter that is a destructuring pattern,
